@@ -2,6 +2,15 @@
 
 from __future__ import annotations
 
+import builtins as _b
+
+
+def print(*a, **k):  # a closed pipe (| head) must not turn into an analysis error
+    try:
+        _b.print(*a, **k)
+    except BrokenPipeError:
+        pass
+
 import argparse
 import importlib
 import json
